@@ -5,6 +5,9 @@ package main
 //   spec/chord/errors.go   every `Name = errorDef("message", retryable)` of the package-level var block, in
 //                          source order  ->  registry : List (String × String × Bool);
 //                          the initial literal of `retryableErrs`  ->  extraRetryable : List String;
+//                          the initial literal of `errorStrMap` (entries `X.Error(): X` for well-known
+//                          external sentinels X)  ->  mapInit : List String; every external sentinel mentioned
+//                          in either literal  ->  externals : List (name × message × retryable);
 //                          the shape of errorDef (registers the message in errorStrMap, appends to
 //                          retryableErrs iff retryable) and of ErrorMapper (looks the twirp Msg() up in
 //                          errorStrMap) is CHECKED, anything else fails loudly.
@@ -67,7 +70,7 @@ func runC14Facts(args []string) {
 		retry     bool
 	}
 	var reg []entry
-	var extra []string
+	var extra, mapInit []string
 	sawMap := false
 	for _, d := range errs.Decls {
 		gd, ok := d.(*ast.GenDecl)
@@ -92,8 +95,19 @@ func runC14Facts(args []string) {
 					continue
 				case "errorStrMap":
 					cl, ok := vs.Values[i].(*ast.CompositeLit)
-					if !ok || len(cl.Elts) != 0 {
-						fail("c14-facts: errorStrMap is not an empty map literal")
+					if !ok {
+						fail("c14-facts: errorStrMap is not a map literal")
+					}
+					for _, e := range cl.Elts {
+						kv, ok := e.(*ast.KeyValueExpr)
+						if !ok {
+							fail("c14-facts: errorStrMap: unexpected element %s", c14Src(fset, e))
+						}
+						k, v := c14Src(fset, kv.Key), c14Src(fset, kv.Value)
+						if k != v+".Error()" {
+							fail("c14-facts: errorStrMap entry %s: %s is not of the form X.Error(): X", k, v)
+						}
+						mapInit = append(mapInit, v)
 					}
 					sawMap = true
 					continue
@@ -255,6 +269,39 @@ func runC14Facts(args []string) {
 			b.WriteString(", ")
 		}
 		b.WriteString(c14LeanStr(e))
+	}
+	fmt.Fprintf(&b, "]\n\n/-- values pre-registered in `errorStrMap` under their own message -/\ndef mapInit : List String := [")
+	for i, e := range mapInit {
+		if i > 0 {
+			b.WriteString(", ")
+		}
+		b.WriteString(c14LeanStr(e))
+	}
+	// messages of the well-known external sentinels (cross-checked against the running program by the harness)
+	extMsg := map[string]string{"context.DeadlineExceeded": "context deadline exceeded", "context.Canceled": "context canceled"}
+	fmt.Fprintf(&b, "]\n\n/-- external sentinel errors mentioned above: (Go value, message, in retryableErrs) -/\ndef externals : List (String × String × Bool) := [")
+	seen := map[string]bool{}
+	first := true
+	for _, e := range append(append([]string{}, extra...), mapInit...) {
+		if seen[e] {
+			continue
+		}
+		seen[e] = true
+		m, ok := extMsg[e]
+		if !ok {
+			fail("c14-facts: unknown external sentinel %s", e)
+		}
+		retry := false
+		for _, x := range extra {
+			if x == e {
+				retry = true
+			}
+		}
+		if !first {
+			b.WriteString(", ")
+		}
+		first = false
+		fmt.Fprintf(&b, "(%s, %s, %v)", c14LeanStr(e), c14LeanStr(m), retry)
 	}
 	fmt.Fprintf(&b, "]\n\n/-- (function, twirp code when retryable, twirp code otherwise) -/\ndef wrapCodes : List (String × String × String) := [")
 	for i, w := range wcs {
